@@ -237,7 +237,7 @@ type txPlan struct {
 	Ops      []op // for a failing function: the operations performed before the failure
 	OnCommit bool
 	Reopen   bool // close and reopen the file after this transaction
-	ClosedOp int  // manual transactions: what to try on the closed transaction (0 none, 1 Commit, 2 Rollback, 3 both)
+	ClosedOp int  // manual transactions: what to try on the closed transaction (bit 0 Commit, bit 1 Rollback); bit 2: a read-write transaction is ended through a top-level bucket's Tx() handle
 }
 
 func pathStr(p []string) string {
@@ -859,7 +859,7 @@ func genPlan(s src, thorough bool) []txPlan {
 			}
 		}
 		if !p.Kind.managed() {
-			p.ClosedOp = s.Intn(4, "closedop")
+			p.ClosedOp = s.Intn(8, "closedop")
 		}
 		p.Reopen = s.Intn(100, "reopen") < 15
 		plans = append(plans, p)
